@@ -31,7 +31,7 @@ Theorem stmt_relocation t mc1 c1 m1 mc2 c2 m2 o1 o2 n W1' res :
    (exists c m, bready Bf (fst (run_tree false mc2 t)) c m)).
 Proof.
   intros R1 R2 Hw Hb Hn HR HM.
-  destruct (ssem_related Bf Bf (fun _ => eq_refl) Hnob o1 o2 n t _ _ W1' res Hw Hn HR HM) as (W2' & HM2 & HR').
+  destruct (ssem_related Bf Bf (fun _ => eq_refl) (fun _ => eq_refl) Hnob o1 o2 n t _ _ W1' res Hw Hn HR HM) as (W2' & HM2 & HR').
   pose proof (stmt_step Bf t mc1 c1 m1 n W1' res R1 Hw Hb HM) as S1.
   pose proof (stmt_step Bf t mc2 c2 m2 n W2' res R2 Hw Hb HM2) as S2.
   unfold stmt_outcome, stuck in *.
